@@ -135,6 +135,20 @@ def one_case(ctx, g, rng, length):
         if sorted(bi2.symbolic_expressions) != sorted(bi.symbolic_expressions) or sorted((b.offset, b.size) for b in bi2.blocks) != sorted((b.offset, b.size) for b in bi.blocks):
             problems.append("after save/load the interval (size %d) carries expressions at %s and blocks %s, before: %s and %s" % (
                 bi.size, sorted(bi2.symbolic_expressions), sorted((b.offset, b.size) for b in bi2.blocks), sorted(bi.symbolic_expressions), sorted((b.offset, b.size) for b in bi.blocks)))
+        # the block VIEWS of the loaded interval are those of the saved one: address (interval address, 0 included, plus offset),
+        # bytes, membership of offsets and addresses at the edges
+        def views(b, owner):
+            base = owner.address if owner.address is not None else 100
+            edges = (b.offset - 1, b.offset, b.offset + b.size - 1, b.offset + b.size)
+            return (b.address, bytes(b.contents), [b.contains_offset(o) for o in edges], [b.contains_address(base + o) for o in edges])
+        if bi2.address != bi.address:
+            problems.append("after save/load the interval's address is %r, was %r" % (bi2.address, bi.address))
+        for b in blocks:
+            b2 = ir2.get_by_uuid(b.uuid)
+            if b2 is None or views(b2, bi2) != views(b, bi):
+                problems.append("after save/load the views (address, contents, contains_offset, contains_address at the edges) of the block [%d,+%d) are %r, were %r"
+                                % (b.offset, b.size, None if b2 is None else views(b2, bi2), views(b, bi)))
+                break
         ctx.count("save_load")
 
     def _one_step(r, old, cur):
